@@ -1036,7 +1036,7 @@ class _CxIfPathSegmentPattern(_CxParent):
 
     def src(self, indentation: int) -> str:
         lines = [
-            '{0}match = patterns[{1}].match(path[{2}])  # {3}'.format(
+            '{0}match = patterns[{1}].match(path[{2}])  # {3!a}'.format(
                 _TAB_STR * indentation,
                 self._pattern_idx,
                 self._segment_idx,
